@@ -22,7 +22,49 @@ KERNEL_NOTE = ("The kernel model (lean/AsphaltModel/Context.lean) treats the cod
                "virtual clocks) on the real asphalt one atomic step at a time and requires the same outputs, events and "
                "teardown traces as the model after every step. ")
 
+STARTUP_NOTE = ("Start-up is modelled as a labelled transition system (lean/AsphaltModel/Startup.lean): component trees and "
+                "their prepare()/start() scripts are data, labels are the events user code observes, `step?` gives enabledness "
+                "and effect, and the theorems hold for every label sequence the system accepts (= every interleaving). "
+                "Correspondence (mode T): generated trees run on the real start_component() under a virtual clock on both "
+                "back-ends; the observed trace must be a run of the model ending in the same outcome, resources and teardown "
+                "order; the direct monitors compare every event's virtual time with an independent reference run of the "
+                "documented discipline and demand completion where the discipline completes. ")
+
 CLAIMS = {
+    "C05": (
+        "Theorems C05_hist, C05_construct_first, C05_construct_order, C05_prepare_first, C05_own_prepare_first, "
+        "C05_start_last (over all descendants), C05_at_most_once, C05_bracketed, C05_return_last, C05_nothing_after_return, "
+        "C05_publish_lands, C05_resources_stay, C05_teardown_owned, C05_teardown_lifo (and, when present in "
+        "Props/C05_deadlock.lean, C05_no_deadlock / C05_bounded: if some schedule completes no schedule gets stuck). "
+        + STARTUP_NOTE,
+        "Partial: 'all children are started concurrently' is a timing fact outside the LTS: decided on the implementation by "
+        "the exact virtual-time comparison with the reference run. Atomicity of code between checkpoints is an assumption.",
+        "8/C05",
+    ),
+    "C06": (
+        "LTS level: C06_no_false, C06_answers_request, C06_enabled_when_published (a blocked lookup can return as soon as a "
+        "matching resource or factory is there), C06_not_released_by_others, C06_other_publication, C06_published_stays, "
+        "C06_optional_immediate. Mechanism level (lean/AsphaltModel/Waiter.lean, the protocol of "
+        "ComponentContext.get_resource over a bounded event queue): C06_waiter_invariant, C06_waiter_no_lost (for every "
+        "interleaving of publications and waiter steps, with any queue size >= 1), C06_waiter_no_false, C06_waiter_monotone, "
+        "C06_waiter_cap_needed. " + STARTUP_NOTE,
+        "The waiter protocol model is tied to the code only through the start-up runs (bursts of 10-120 publications inside "
+        "one atomic section, the D6 class), not step by step; 'miss -> subscribe -> look again contains no checkpoint' is an "
+        "assumption. 'As soon as' is decided on the implementation (virtual time of the return = max(request, publication)). "
+        "Written for the behaviour after the fix commit for D6.",
+        "8/C06",
+    ),
+    "C07": (
+        "Theorems C07_error, C07_error_creating, C07_outcome_final, C07_raises_decided, C07_all_stopped, C07_quiescent, "
+        "C07_after_instant, C07_ancestors, C07_no_return_after_failure, C07_timeout, C07_in_time, C07_registered_stays, "
+        "C07_cleanup_order. " + STARTUP_NOTE,
+        "Hypothesis kept explicit: exactly one component fails, with an Exception. Within the virtual instant of the failure "
+        "components that were already runnable may still run to their next checkpoint (anyio delivers cancellation through the "
+        "event loop): the model's `grace` flag, told by the observation that virtual time moved on. A zero time-out ties with "
+        "the first instant and is judged by the monitor only. That cancellation stops a sibling's Python code is anyio's. "
+        "Written for the behaviour after the fix commit for D9.",
+        "8/C07",
+    ),
     "C10": (
         "Refinement of every stream's queue state to its ghost history, for every reachable world of the signal model "
         "(lean/AsphaltModel/Signal.lean; all operations atomic, so all reachable worlds = all interleavings): C10_settled, "
